@@ -1,5 +1,5 @@
 /* Lock-step harness for src/fiber_barrier.c on the T1 machine (C12).
- * params: dmax, count [, lists: ignored here].  A fiber's program = one op ("wait") per consecutive
+ * params: dmax, count [, lists: ignored here [, start = initial value of barrier->counter]].  A fiber's program = one op ("wait") per consecutive
  * round.  Before its k-th call the fiber emits (k, K_EV, 1) "entered round k",
  * after it (k, K_RET, r) with r = return value (1 = serial fiber). */
 #include "harness.h"
@@ -34,7 +34,7 @@ static void h_run_case(hcase_t* c) {
   mpsc_fifo_t* const w = (mpsc_fifo_t*)&bar.waiters;
   const int nlists = (int)(sizeof bar.waiters / sizeof(mpsc_fifo_t));
   bar.count = (uint32_t)count;
-  bar.counter = 0;
+  bar.counter = c->nparams > 3 ? (uint64_t)c->params[3] : 0;   /* a whole number of completed rounds */
   for (int q = 0; q < nlists; q++) {
     w[q].head = &nodes[q]; w[q].tail = &nodes[q];
     rt_reg((void*)&w[q].head, 8, 301 + 10 * q, 8);
